@@ -23,6 +23,7 @@ func c20(c *Ctx) (*report.Result, error) {
 	res.RuleDoc["O20.4"] = "a shared lock cannot be leaked: every critical section of the stream observer's and the stream tracker's mutexes is released by a defer placed before any instruction that may panic, or contains no instruction that may panic and is released on every path"
 	res.RuleDoc["O20.6"] = "a shared lock cannot wedge its holder: inside a critical section of a shared mutex no call (through module callees and closures) acquires the same mutex again, and distinct shared mutexes are nested in one order only"
 	res.RuleDoc["O20.7"] = "lock discipline of the shared bookkeeping: every read or write of a slice/map field of the stream observer and the stream tracker (outside their constructors) happens inside a critical section of the struct's mutex; a write under the write lock - an access that bypasses the lock races with the growth that replaces the table, and updates made to the old table are lost for every other stream"
+	res.RuleDoc["O20.9"] = "the per-shard counter access is preceded by a growth test against the length of the very slice that is indexed: in ReportStreamValue every path to streamActive[idx] passes `idx >= len(streamActive)` (growing on the true side) - a test against cap(), or against another slice, lets an index between length and capacity through to an out-of-range panic"
 	res.RuleDoc["O20.5"] = "untrusted ids never enter narrow arithmetic: no +,-,*,<< on a value of a type narrower than 64 bits that derives from the decoded cluster/shard ids without a dominating upper bound or a widening conversion"
 	res.Floors["O20.4"] = 10
 
@@ -394,6 +395,7 @@ func checkSharedLocks(c *Ctx, res *report.Result) {
 		res.Undec("O20.7", "accesses of the shared tables", "", fmt.Sprintf("%d accesses found", nAcc))
 	}
 	res.Analysed["guarded_accesses"] = nAcc
+	checkObserverIndexGuard(c, res, "O20.9")
 	// ---- O20.8: nothing blocks under the shared bookkeeping locks
 	res.RuleDoc["O20.8"] = "nothing blocks while a shared bookkeeping lock is held: inside the critical sections of the stream observer's and the stream tracker's mutexes there is no channel operation, stream I/O, sleep, wait or call through a function value"
 	checkNoBlockingUnderLock(c, res, "O20.8", []*ssa.Package{sp}, func(owner, field string) bool { return shared[owner+"."+field] }, map[string]string{})
@@ -819,4 +821,53 @@ func checkReentrancy(c *Ctx, res *report.Result, rule6 string, pkgs []*ssa.Packa
 	sort.Strings(nest)
 	res.Check(cyc == "", rule6, "locks are acquired in one order", "", fmt.Sprintf("%d nested acquisitions, no cycle: %s", len(nest), strings.Join(nest, "; ")), "lock-order inversion: "+cyc)
 	return n6
+}
+
+// checkObserverIndexGuard: see O20.9 (also filed under C07 as O7.5: LCM mode opens a stream for every shard id
+// 1..LCM and each of them is reported to the observer first).
+func checkObserverIndexGuard(c *Ctx, res *report.Result, rule string) {
+	f := resolve(c, res, rule, anchor{"proxy", "*ReplicationStreamObserver", "ReportStreamValue"})
+	if f == nil {
+		return
+	}
+	n := 0
+	for _, b := range f.Blocks {
+		for _, ins := range b.Instrs {
+			ia, ok := ins.(*ssa.IndexAddr)
+			if !ok {
+				continue
+			}
+			_, fld, okf := flow.FieldLoadOf(ia.X)
+			if !okf || fld != "streamActive" {
+				continue
+			}
+			n++
+			// a test `int(idx) >= len(<load of streamActive>)` (or `<` / swapped) on every path from entry
+			isLenTest := func(x ssa.Instruction) bool {
+				iff, isIf := x.(*ssa.If)
+				if !isIf {
+					return false
+				}
+				bo, isB := iff.Cond.(*ssa.BinOp)
+				if !isB {
+					return false
+				}
+				for _, side := range []ssa.Value{bo.X, bo.Y} {
+					if call, isC := side.(*ssa.Call); isC {
+						if bi, isBi := call.Call.Value.(*ssa.Builtin); isBi && bi.Name() == "len" {
+							if _, f2, ok2 := flow.FieldLoadOf(call.Call.Args[0]); ok2 && f2 == "streamActive" {
+								return true
+							}
+						}
+					}
+				}
+				return false
+			}
+			r := flow.FindPath(flow.Point{Block: f.Blocks[0]}, func(x ssa.Instruction) bool { return x == ssa.Instruction(ia) }, isLenTest, nil)
+			res.Check(!r.Found, rule, "ReportStreamValue: streamActive[idx] is reached only through a test of idx against len(streamActive)", instrPos(c.Prog, ia), "every path passes `idx >= len(s.streamActive)`", "the counter slot is indexed without a preceding comparison of the index with the slice's length (path "+flow.BlockPath(r.Via)+"): an index between len and cap - any shard id above the last grown size - panics with index out of range and that shard's stream is refused")
+		}
+	}
+	if n == 0 {
+		res.Undec(rule, "ReportStreamValue: counter access", fnPos(c.Prog, f), "no indexed access of streamActive found")
+	}
 }
